@@ -612,7 +612,9 @@ def py_side(d, workdir):
 
 # =============================================================================== Lean emission
 def lstr(s):
-    return '"' + s.replace("\\", "\\\\").replace('"', '\\"') + '"'
+    if not all(32 <= ord(ch) < 127 for ch in s):
+        raise Infra("non-ASCII identifier %r" % s)
+    return 'n!"' + s.replace("\\", "\\\\").replace('"', '\\"') + '"'
 
 
 def lkind(k):
@@ -640,16 +642,15 @@ HDR = "-- GENERATED by rv/extract_c18.py from the working tree of the code under
 
 
 def lean_layout(ns, structs, what):
-    rows, sizes = [], []
+    blocks, nrows = [], 0
     for s, v in structs.items():
-        sizes.append("  (%s, %d)" % (lstr(s), v["size"]))
-        for m in v["members"]:
-            rows.append("  (%s, %s, %d, %d, %s)" % (lstr(s), lstr(m["name"]), m["off"], m["size"], lkind(m["kind"])))
+        rows = ["    ⟨%s, %d, %d, %s⟩" % (lstr(m["name"]), m["off"], m["size"], lkind(m["kind"])) for m in v["members"]]
+        nrows += len(rows)
+        blocks.append("  (%s, %d, [\n%s\n  ])" % (lstr(s), v["size"], ",\n".join(rows)))
     out = HDR + "import RV.Model.Layout\nnamespace RV.Gen.C18\nopen RV.Layout\n\n"
-    out += "/-- %s: (structure, member, offset, size, kind), declaration order -/\n" % what
-    out += "def %sRows : List Row := [\n%s\n]\n\n" % (ns, ",\n".join(rows))
-    out += "/-- total sizes -/\ndef %sSizes : List (String × Nat) := [\n%s\n]\n\n" % (ns, ",\n".join(sizes))
-    out += "def %sRowCount : Nat := %d\ndef %sStructCount : Nat := %d\n" % (ns, len(rows), ns, len(sizes))
+    out += "/-- %s: (structure, total size, [⟨member, offset, size, kind⟩ in declaration order]) -/\n" % what
+    out += "def %sTab : StructTab := [\n%s\n]\n\n" % (ns, ",\n".join(blocks))
+    out += "/-- what the extraction counted -/\ndef %sRowCount : Nat := %d\ndef %sStructCount : Nat := %d\n" % (ns, nrows, ns, len(blocks))
     out += "\nend RV.Gen.C18\n"
     return out
 
@@ -658,23 +659,23 @@ def lean_options(cs, py, ref):
     L = [HDR + "import RV.Model.Layout\nnamespace RV.Gen.C18\nopen RV.Layout\n"]
     L.append("/-- every C enumeration of the header: (enum, enumerator, value) -/")
     rows = ["  (%s, %s, %d)" % (lstr(e), lstr(n), v) for e, items in cs["enums"].items() for n, v in items]
-    L.append("def cEnumRows : List (String × String × Int) := [\n%s\n]\n" % ",\n".join(rows))
+    L.append("def cEnumRows : List (Name × Name × Int) := [\n%s\n]\n" % ",\n".join(rows))
     L.append("/-- every name->value dictionary of the Python package: (dictionary, name, value) -/")
     prow = ["  (%s, %s, %d)" % (lstr(dn), lstr(k), v) for dn, dv in sorted(py["dicts"].items()) for k, v in dv["items"]]
-    L.append("def pyOptRows : List (String × String × Int) := [\n%s\n]\n" % ",\n".join(prow))
+    L.append("def pyOptRows : List (Name × Name × Int) := [\n%s\n]\n" % ",\n".join(prow))
     L.append("/-- which property uses which dictionary and which ctypes attribute: (class, property, role, dictionary, attributes touched) -/")
     pr = ["  (%s, %s, %s, %s, [%s])" % (lstr(p["cls"]), lstr(p["prop"]), lstr(p["role"]), lstr(dn), ", ".join(lstr(a) for a in p["attrs"]))
           for p in py["props"] for dn in p["dicts"]]
-    L.append("def pyPropRows : List (String × String × String × String × List String) := [\n%s\n]\n" % ",\n".join(pr))
+    L.append("def pyPropRows : List PropRow := [\n%s\n]\n" % ",\n".join(pr))
     L.append("/-- function-pointer options: (class, property, option name, exported symbol the setter stores) -/")
     fr = ["  (%s, %s, %s, %s)" % (lstr(f["cls"]), lstr(f["prop"]), lstr(f["name"]), lstr(sym))
           for f in py["fnopts"] for sym in f["symbols"] if sym not in ref.get("fn_setter_helpers", [])]
-    L.append("def pyFnOptRows : List (String × String × String × String) := [\n%s\n]\n" % ",\n".join(fr))
+    L.append("def pyFnOptRows : List FnRow := [\n%s\n]\n" % ",\n".join(fr))
     L.append("/-- functions declared in the public header -/")
-    L.append("def cFunctions : List String := [\n%s\n]\n" % ",\n".join("  " + lstr(f) for f in cs["functions"]))
+    L.append("def cFunctions : List Name := [\n%s\n]\n" % ",\n".join("  " + lstr(f) for f in cs["functions"]))
     L.append("/-- ctypes fields whose descriptor replaces a property/method of the same name in the class body: (class, field) -/")
     sh = ["  (%s, %s)" % (lstr(c), lstr(n)) for c, v in sorted(py["classes"].items()) for n in v.get("shadowed", [])]
-    L.append("def pyShadowed : List (String × String) := [%s]\n" % ("\n" + ",\n".join(sh) + "\n" if sh else ""))
+    L.append("def pyShadowed : List (Name × Name) := [%s]\n" % ("\n" + ",\n".join(sh) + "\n" if sh else ""))
     L.append("def cEnumRowCount : Nat := %d\ndef pyOptRowCount : Nat := %d\ndef pyFnOptRowCount : Nat := %d\ndef cFunctionCount : Nat := %d"
              % (len(rows), len(prow), len(fr), len(cs["functions"])))
     L.append("\nend RV.Gen.C18\n")
@@ -686,16 +687,16 @@ def lean_ref(ref, findings):
     L = [HDR.replace("the working tree of the code under test", "ref/C18_*.json and findings/C18.jsonl (committed in /verif)")
          + "import RV.Model.Layout\nnamespace RV.Gen.C18\nopen RV.Layout\n"]
     L.append("/-- Python class -> C structure; `true` = the class is reached only through pointers and may mirror a prefix -/")
-    L.append("def classMap : List (String × String × Bool) := [\n%s\n]\n" % ",\n".join(
+    L.append("def classMap : ClassMap := [\n%s\n]\n" % ",\n".join(
         "  (%s, %s, %s)" % (lstr(e["class"]), lstr(e["struct"]), "true" if e.get("prefix") else "false") for e in ref["classmap"]))
     L.append("/-- accepted name differences: (C structure, Python field, C member) -/")
-    L.append("def renames : List (String × String × String) := [\n%s\n]\n" % ",\n".join(
+    L.append("def renames : List Triple := [\n%s\n]\n" % ",\n".join(
         "  (%s, %s, %s)" % (lstr(e["struct"]), lstr(e["py"]), lstr(e["c"])) for e in ref["renames"]))
     L.append("/-- option families: (dictionary, C structure, C member holding the value, Python class, property, enumerator prefix) -/")
     L.append("def optMap : List OptFamily := [\n%s\n]\n" % ",\n".join(
         "  ⟨%s, %s, %s, %s, %s, %s⟩" % tuple(lstr(e[k]) for k in ("dict", "struct", "member", "class", "property", "prefix")) for e in ref["options"]))
     L.append("/-- function-pointer option families: (Python class, property, C structure, C member, symbol prefix) -/")
-    L.append("def fnOptMap : List (String × String × String × String × String) := [\n%s\n]\n" % ",\n".join(
+    L.append("def fnOptMap : List FnFamily := [\n%s\n]\n" % ",\n".join(
         "  (%s, %s, %s, %s, %s)" % tuple(lstr(e[k]) for k in ("class", "property", "struct", "member", "prefix")) for e in ref["fn_options"]))
     fl = ref["floor"]
     L.append("def floorClasses : Nat := %d\ndef floorPyRows : Nat := %d\ndef floorCRows : Nat := %d\ndef floorCStructs : Nat := %d\n"
@@ -709,17 +710,17 @@ def lean_ref(ref, findings):
             if x["kind"] == "name":
                 ex_name.append("  (%s, %s, %s)" % (lstr(x["struct"]), lstr(x["py"]), lstr(x["c"])))
             elif x["kind"] == "layout":
-                ex_layout.append("  (%s, %s, %s, %s)" % (lstr(x["struct"]), lstr(x["py"]), lstr(x["c"]), lstr(x["why"])))
+                ex_layout.append("  (%s, %s, %s, .%s)" % (lstr(x["struct"]), lstr(x["py"]), lstr(x["c"]), x["why"]))
             elif x["kind"] == "shadow":
                 ex_shadow.append("  (%s, %s)" % (lstr(x["class"]), lstr(x["field"])))
     L.append("/-- known findings (findings/C18.jsonl, status known): name pairs that are NOT accepted renames but are\n"
              "    tolerated by the `…_partial` theorems: (C structure, Python field, C member at the same offset) -/")
-    L.append("def knownNameExceptions : List (String × String × String) := [%s]\n" % ("\n" + ",\n".join(ex_name) + "\n" if ex_name else ""))
+    L.append("def knownNameExceptions : List Triple := [%s]\n" % ("\n" + ",\n".join(ex_name) + "\n" if ex_name else ""))
     L.append("/-- known findings: layout disagreements tolerated by the `…_partial` theorems, each only for its category:\n"
              "    (C structure, Python field, C member at the same position, category) -/")
     L.append("def knownLayoutExceptions : List Bad := [%s]\n" % ("\n" + ",\n".join(ex_layout) + "\n" if ex_layout else ""))
     L.append("/-- known findings: ctypes fields shadowing a property of the same name: (class, field) -/")
-    L.append("def knownShadowExceptions : List (String × String) := [%s]\n" % ("\n" + ",\n".join(ex_shadow) + "\n" if ex_shadow else ""))
+    L.append("def knownShadowExceptions : List (Name × Name) := [%s]\n" % ("\n" + ",\n".join(ex_shadow) + "\n" if ex_shadow else ""))
     L.append("end RV.Gen.C18\n")
     return "\n".join(L)
 
